@@ -760,6 +760,10 @@ def judge_replay(r, tmp, verbose=False):
     if op == "robustness":
         bad = robustness(corpus_value(r))
         return [bad] if bad else []
+    if op == "connect-wait":
+        bad = connect_wait_probe(r["class"], r["timeout"], r["rt"])
+        say("impl:", bad or "as configured")
+        return [bad] if bad else []
     if op == "tcp-timing":
         bad = tcp_timing_probe(r["class"], r["timeout"], r["rt"])
         say("impl:", bad or "as configured")
@@ -935,7 +939,99 @@ def tcp_timing_probe(name, timeout, rt):
     return None
 
 
+def connect_wait_probe(name, timeout, rt):
+    """reconnect_timeout of the thread-based serial and TCP classes by effect: the real connect loop against a
+    device that cannot be opened, on a fake clock — between two attempts exactly reconnect_timeout passes
+    (whatever number it is: whole, fractional, below one second), and the serial class opens the port with
+    the configured timeout.  Returns a failure text or None."""
+    import mysensors.gateway_serial as gs
+    import mysensors.gateway_tcp as gt
+    import serial as real_serial
+    serial_class = "Serial" in name
+    vals = dict(values_a("/nonexistent"), timeout=timeout, reconnect_timeout=rt, protocol_version="2.2")
+    gw, err = build(name, [("port" if serial_class else "host"), "timeout", "reconnect_timeout", "protocol_version"], vals)
+    if gw is None:
+        return f"{name}(timeout, reconnect_timeout) is not accepted: {err}"
+    mod = gs if serial_class else gt
+    transport = gw.tasks.transport
+    clock, attempts = [0.0], []
+
+    class Clock:
+        def __getattr__(self, attr):
+            return getattr(real_time, attr)
+
+        def time(self):
+            return clock[0]
+
+        def sleep(self, secs):
+            clock[0] += float(secs)
+            if len(attempts) >= 4 or clock[0] > 100 * (rt + 1):
+                transport.protocol = None
+
+    def refuse(*args, **kwargs):
+        attempts.append((clock[0], kwargs.get("timeout", args[1] if len(args) > 1 and not serial_class else None)))
+        if len(attempts) >= 4:
+            transport.protocol = None
+        if len(attempts) > 50:
+            raise KeyboardInterrupt        # a loop that does not wait at all
+        raise (real_serial.SerialException("could not open port") if serial_class
+               else [ConnectionRefusedError(111, "refused"), __import__("socket").timeout("timed out")][len(attempts) % 2])
+
+    class SerialShim:
+        SerialException = real_serial.SerialException
+        threaded = real_serial.threaded
+        serial_for_url = staticmethod(refuse)
+
+        def __getattr__(self, attr):
+            return getattr(real_serial, attr)
+
+    class SocketShim:
+        create_connection = staticmethod(refuse)
+
+        def __getattr__(self, attr):
+            return getattr(real_socket, attr)
+    real_time = mod.time
+    real_socket = getattr(mod, "socket", None)
+    mod.time = Clock()
+    if serial_class:
+        mod.serial = SerialShim()
+    else:
+        mod.socket = SocketShim()
+    what = f"{name}(timeout={timeout}, reconnect_timeout={rt})"
+    try:
+        try:
+            mod.sync_connect(transport)
+        except KeyboardInterrupt:
+            return f"{what}: the connect loop made more than 50 attempts within {clock[0]:g} s"
+        except Exception as exc:  # noqa: BLE001
+            return f"{what}: the connect loop raised {type(exc).__name__}: {exc}"
+    finally:
+        mod.time = real_time
+        if serial_class:
+            mod.serial = real_serial
+        else:
+            mod.socket = real_socket
+    if len(attempts) < 4:
+        return f"{what}: the connect loop gave up after {len(attempts)} attempts"
+    gaps = [b[0] - a[0] for a, b in zip(attempts, attempts[1:4])]
+    if any(abs(g - rt) > 1e-6 for g in gaps):
+        return f"{what}: the attempts to connect are {gaps} s apart"
+    if serial_class and any(t != timeout for _, t in attempts[:4]):
+        return f"{what}: the port is opened with timeout {attempts[0][1]!r}"
+    return None
+
+
 def run_effects(res, tmp):
+    for name in ("SerialGateway", "TCPGateway"):
+        for timeout, rt in ((1.0, 10.0), (1.0, 2.5), (3.0, 0.4), (0.2, 0.5), (5.0, 5.0), (2.0, 30.0)):
+            res.count("effect-probes")
+            res.evaluations += 1
+            res.distinct.add(digest(["connect-wait", name, timeout, rt]))
+            bad = connect_wait_probe(name, timeout, rt)
+            if bad:
+                res.oracle_failures.append({
+                    "key": {"kind": "option-without-effect", "class": name, "option": "reconnect_timeout (connect loop)"},
+                    "what": bad, "replay": {"op": "connect-wait", "class": name, "timeout": timeout, "rt": rt}})
     for name in CLASSES:
         if "TCP" in name:
             for timeout, rt in ((1.0, 30.0), (10.0, 2.0), (1.0, 10.0), (3.0, 3.0), (0.5, 120.0)):
